@@ -21,7 +21,7 @@ def cases(tier):
     for agg in ("upgrad", "dualproj"):
         for m in ([1, 2, 3] if tier == "thorough" else [1, 2]):
             for pref in (0, 1):
-                cs.append(dict(name=f"{agg}_m{m}_pref{pref}", fn="dualcone", args=dict(agg=agg, m=m, pref=pref), weight=m ** 3, **({"budget_s": 1200} if m == 3 else {})))
+                cs.append(dict(name=f"{agg}_m{m}_pref{pref}", fn="dualcone", args=dict(agg=agg, m=m, pref=pref), weight=m ** 3, timeout_ms=40000, **({"budget_s": 1200} if m == 3 else {})))
     for it in (1, 2):
         cs.append(dict(name=f"mgda_m2_it{it}", fn="mgda", args=dict(m=2, iters=it), weight=4 * it))
         cs.append(dict(name=f"mgda_rate_m2_it{it}", fn="mgda_rate", args=dict(m=2, iters=it), weight=6 * it))
